@@ -128,6 +128,9 @@ def whitespace_variants(toks):
 
 # fixed lists of documented illegal forms that the token product does not reach
 COMMA_FORMS = ["a,b", "a, b", "a ,b", "a,", ",a", "3,4", "a,b c", "#a,*b", "a,b,c", "_,_", "...,a", "a b,c d"]
+# a comma-separated token NEXT TO a token that legitimately contains a bracketed comma (a function
+# call in a symbolic axis): the exemption for brackets is per token, not per specification
+COMMA_FORMS += ["a,b min(a,b)", "min(a,b) a,b", "a,b (a+1)", "(a+1) a,b", "c a,b max(c,2) d", "min(a,b) c,d"]
 TRAILING_HASH = ["a#", "3#", "*a#", "a+1#", "_#", "#a#", "a b#", "a# b", "doc=a#", "é#"]
 TWO_MULTI = ["*a *b", "... ...", "*a ...", "... *a", "*_ *a", "*a b *c", "*#a *#a", "*a *a", "... a ...", "*_ ..."]
 ELLIPSIS_MOD = ["#...", "*...", "_...", "?...", "doc=...", "#*...", "a #... b"]
